@@ -88,9 +88,15 @@ func (s *httpSolver) serve(ctx context.Context, si *solverInfo) {
 		}
 	}()
 	defer close(si.done)
+	// the server outlives the order whose Present started it (it is shared by all
+	// orders using this address and closed by the last one), so requests must not
+	// inherit that order's cancellation: once it was canceled, looking up a challenge
+	// in storage (one initiated by another instance, or a Host spelled differently)
+	// failed on storage implementations that honor the context
+	baseCtx := context.WithoutCancel(ctx)
 	httpServer := &http.Server{
 		Handler:     s.handler,
-		BaseContext: func(listener net.Listener) context.Context { return ctx },
+		BaseContext: func(listener net.Listener) context.Context { return baseCtx },
 	}
 	httpServer.SetKeepAlivesEnabled(false)
 	err := httpServer.Serve(si.listener)
